@@ -119,6 +119,27 @@ INIT_B = ["S(name='al')", "S(name='al', extra=2)"]
 MULTI_B = ["s.update(S(name='zed', userId=7))", "s.update({'name': 'zed', 'extra': -1})", "s.update(S(name='zed', extra=5))"]
 PRED_B = {"name": lambda v: type(v) is str and len(v) <= 5, "userId": lambda v: type(v) is int, "ownId": lambda v: type(v) is int,
           "extra": lambda v: type(v) is int and v >= 0}
+# C: every visible field is optional and mutable; an immutable and a required field are hidden (no_output), they live in
+# the attribute view only
+SRC_C = '''
+class {name}({base}):
+{options}
+    tag: str = Field(required=False)
+    n: int = Field(ge=0, default=0)
+    pin: int = Field(immutable=True, no_output=True, default=9)
+    key: str = Field(no_output=True)
+'''
+FIELDS_C = {
+    "tag": ("tag", ["tag"], [("'t'", "valid"), ("7", "conv")]),
+    "n": ("n", ["n"], [("3", "valid"), ("'4'", "conv"), ("-1", "invalid")]),
+    "pin": ("pin", ["pin"], [("8", "valid"), ("9", "valid")]),
+    "key": ("key", ["key"], [("'k'", "valid"), ("5", "conv")]),
+}
+OPTION_SETS_C = ["", "addition=True", "ignore_delete_nonexistent=True"]
+INIT_C = ["S(key='q')", "S(key='q', tag='g', n=2)"]
+MULTI_C = ["s.update({'tag': 'u', 'n': 5})", "s.update(S(key='z', tag='w'))"]
+PRED_C = {"tag": lambda v: type(v) is str, "n": lambda v: type(v) is int and v >= 0, "pin": lambda v: type(v) is int,
+          "key": lambda v: type(v) is str}
 MODELS = {}
 _CUR_MODEL = ["A"]
 
@@ -129,10 +150,36 @@ def use_model(m):
     if not MODELS:
         MODELS["A"] = dict(SRC=SRC, FIELDS=FIELDS, OPTION_SETS=OPTION_SETS, INIT=INIT, MULTI=MULTI, PRED=PRED, HOLDER=HOLDER)
         MODELS["B"] = dict(SRC=SRC_B, FIELDS=FIELDS_B, OPTION_SETS=OPTION_SETS_B, INIT=INIT_B, MULTI=MULTI_B, PRED=PRED_B, HOLDER="")
+        MODELS["C"] = dict(SRC=SRC_C, FIELDS=FIELDS_C, OPTION_SETS=OPTION_SETS_C, INIT=INIT_C, MULTI=MULTI_C, PRED=PRED_C, HOLDER="")
     t = MODELS[m]
     SRC, FIELDS, OPTION_SETS, INIT, MULTI, PRED, HOLDER = (t["SRC"], t["FIELDS"], t["OPTION_SETS"], t["INIT"], t["MULTI"],
                                                            t["PRED"], t["HOLDER"])
     _CUR_MODEL[0] = m
+
+
+def invariant_c(cls, inst, opt_expr, uid0, base):
+    bad = []
+    d, a = snapshot(inst)
+    if not isinstance(inst, cls):
+        return [("type-lost", f"the instance is now a {type(inst).__name__}")]
+    for k, v in d.items():
+        if k in ("pin", "key"):
+            bad.append(("no-output-key", f"no_output field {k!r} appears in the mapping"))
+        elif k in PRED_C:
+            if not PRED_C[k](v):
+                bad.append((f"unparsed-{k}", f"{k!r} holds {v!r}, which does not conform to its declaration"))
+        elif "addition=True" not in opt_expr:
+            bad.append(("stray-key", f"extra key {k!r} present although addition is not enabled"))
+    # the hidden fields live in the attribute view
+    if a.get("pin", _ABSENT) is _ABSENT:
+        bad.append(("immutable-removed", "the hidden immutable field pin lost its value"))
+    elif a["pin"] != 9:
+        bad.append(("immutable-changed", f"pin is {a['pin']!r}, initially 9"))
+    if a.get("key", _ABSENT) is _ABSENT:
+        bad.append(("required-missing", "the hidden required field key is gone"))
+    elif type(a["key"]) is not str:
+        bad.append(("unparsed-key", f"key holds {a['key']!r}"))
+    return bad
 
 
 def invariant_b(cls, inst, opt_expr, uid0, base):
@@ -215,6 +262,7 @@ def shards(tier):
     use_model("A")
     out = [(base, oi, ii, "A") for base in ("Schema", "DataClass") for oi in range(len(OPTION_SETS)) for ii in range(len(INIT))]
     out += [(base, oi, ii, "B") for base in ("Schema", "DataClass") for oi in range(len(OPTION_SETS_B)) for ii in range(len(INIT_B))]
+    out += [("Schema", oi, ii, "C") for oi in range(len(OPTION_SETS_C)) for ii in range(len(INIT_C))]
     return out
 
 
@@ -298,6 +346,8 @@ def invariant(cls, inst, opt_expr, uid0, base):
     """-> list of (kind, message) violations of the statement's invariant on one instance"""
     if _CUR_MODEL[0] == "B":
         return invariant_b(cls, inst, opt_expr, uid0, base)
+    if _CUR_MODEL[0] == "C":
+        return invariant_c(cls, inst, opt_expr, uid0, base)
     bad = []
     schema = base == "Schema"
     d, a = snapshot(inst)
@@ -408,14 +458,17 @@ def run_shard(shard, tier):
     acc = Acc()
     opt_expr = OPTION_SETS[oi]
     depth = 4 if tier == "thorough" else 3
-    if model == "B":
+    if model in ("B", "C"):
         depth += 1          # a small alphabet: popitem has to get past the subclass field to reach the inherited ones
     cls, src, env = build_class(base, opt_expr)
     ops = operations(base, tier)
     init_expr = INIT[ii]
     inst0 = rebuild(cls, init_expr, [], env)
     ukey = "uid" if model == "A" else "userId"
-    uid0 = snapshot(inst0)[0][ukey] if base == "Schema" else snapshot(inst0)[1].get(ukey)
+    if model == "C":
+        uid0 = 9
+    else:
+        uid0 = snapshot(inst0)[0][ukey] if base == "Schema" else snapshot(inst0)[1].get(ukey)
     for kind, msg in invariant(cls, inst0, opt_expr, uid0, base):
         _viol(acc, base, opt_expr, src, init_expr, [], "init", kind, msg)
     seen = {state_key(inst0)}
@@ -512,7 +565,7 @@ def _viol(acc, base, opt_expr, src, init_expr, hist, label, kind, msg):
     opname = "".join(ch for ch in opname.split("[")[0] if ch.isalpha() or ch in "._|= ") .strip()
     if label.startswith("s[") or label.startswith("del s["):
         opname = label.split("[")[0] + "[]"
-    fp = f"C07|{base}{'' if _CUR_MODEL[0] == 'A' else '-inherited'}|{opt_expr or 'default'}|{opname}|{kind}"
+    fp = f"C07|{base}{'' if _CUR_MODEL[0] == 'A' else '-inherited' if _CUR_MODEL[0] == 'B' else '-hidden'}|{opt_expr or 'default'}|{opname}|{kind}"
     script = "\n".join([
         "import sys", "sys.path.insert(0, '/verif')", "from utmc.ns import *", "from utmc.props import c07",
         f"c07.use_model({_CUR_MODEL[0]!r})", f"cls, src, env = c07.build_class({base!r}, {opt_expr!r})", "print(src)",
